@@ -431,3 +431,163 @@ def ok20_tril_copy(image):
     w = numpy.tril(image)
     w[0] = 0
     return float(w.std())
+
+# ---- idioms reported by the round-5 audit of C19/C20 as judged pure by T2; handled since (closures, operator module, licences to overwrite)
+import operator
+import scipy.linalg
+from numpy.lib.stride_tricks import as_strided
+from operator import iadd as _iadd
+
+def m90_operator_iadd(image):
+    operator.iadd(image, 1)
+    return 0.0
+
+def m91_operator_iadd_imported(image):
+    _iadd(image, 1)
+    return 0.0
+
+def m92_nditer_readwrite(image):
+    for x in numpy.nditer(image, op_flags=["readwrite"]):
+        x[...] = 0
+    return 0.0
+
+def m93_nditer_with_block(image):
+    with numpy.nditer(image, op_flags=[["readwrite"]]) as it:
+        for x in it:
+            x[...] = 2 * x
+    return 0.0
+
+def m94_as_strided_write(image):
+    w = numpy.lib.stride_tricks.as_strided(image, shape=(2,), strides=(8,))
+    w[0] = 0
+    return 0.0
+
+def m95_as_strided_imported(image):
+    w = as_strided(image, shape=(2,), strides=(8,))
+    w += 1
+    return 0.0
+
+def m96_frombuffer_write(image):
+    w = numpy.frombuffer(image, dtype=numpy.uint8)
+    w[0] = 0
+    return 0.0
+
+def m97_setattr_shape(image):
+    setattr(image, "shape", (image.size,))
+    return 0.0
+
+def m98_overwrite_a(image):
+    return scipy.linalg.inv(image, overwrite_a=True)
+
+def m99_overwrite_b(image, rhs):
+    return scipy.linalg.solve(image, rhs, overwrite_b=True)
+
+def m100_del_item(J):
+    del J[0]
+    return len(J)
+
+def m101_squeeze_function_write(image):
+    numpy.squeeze(image)[0] = 0
+    return 0.0
+
+def m102_nested_def_writes_parameter(image):
+    def clear(a):
+        a[0] = 0
+    clear(image)
+    return 0.0
+
+def m103_nested_def_returns_view(image):
+    def first(a):
+        return a[0]
+    w = first(image)
+    w[...] = 0
+    return 0.0
+
+def m104_map_lambda_fill(image):
+    list(map(lambda r: r.fill(0), image))
+    return 0.0
+
+def m105_named_lambda(image):
+    clear = lambda a: a.fill(0)
+    clear(image)
+    return 0.0
+
+def m106_apply_along_axis_closure(image):
+    def clear(r):
+        r[0] = 0
+        return r
+    numpy.apply_along_axis(clear, 0, image)
+    return 0.0
+
+def m107_sorted_key_lambda(J):
+    return sorted(J, key=lambda r: r.sort())
+
+def m108_operator_setitem(image):
+    operator.setitem(image, 0, 0)
+    return 0.0
+
+def m109_ravel_function_write(image):
+    numpy.ravel(image)[0] = 0
+    return 0.0
+
+def m110_nested_def_keyword(image):
+    def clear(n, a=None):
+        a[n] = 0
+    clear(0, a=image)
+    return 0.0
+
+def m111_real_if_close_write(image):
+    w = numpy.real_if_close(image)
+    w[0] = 0
+    return 0.0
+
+def m112_lambda_view_then_write(image):
+    rows = list(map(lambda r: r[::2], image))
+    rows[0][0] = 0
+    return 0.0
+
+def ok21_nested_def_on_copy(image):
+    def clear(a):
+        a[0] = 0
+        return a
+    w = clear(image.copy())
+    return float(w.std())
+
+def ok22_lambda_pure(image):
+    f = lambda a: a * 2
+    w = f(image)
+    w[0] = 0
+    return float(w.std())
+
+def ok23_overwrite_local(image):
+    w = image @ image.T
+    return scipy.linalg.inv(w, overwrite_a=True)
+
+def ok24_overwrite_false(image):
+    return scipy.linalg.inv(image, overwrite_a=False)
+
+def ok25_nested_def_shadowing(image):
+    def scale(image):
+        image = image * 2
+        image[0] = 0
+        return image
+    return float(scale(image).std())
+
+def ok26_del_local_name(image):
+    w = image * 2
+    del w
+    return float(image.std())
+
+def ok27_map_pure_lambda(image):
+    return sum(map(lambda r: float(r.sum()), image))
+
+def ok28_nditer_readonly(image):
+    s = 0.0
+    for x in numpy.nditer(image):
+        s += float(x)
+    return s
+
+def ok29_operator_add(image):
+    w = operator.add(image, 1)
+    w[0] = 0
+    return float(w.std())
